@@ -137,7 +137,7 @@ def docOf (attrs : List Attr) : Option (Option String) :=
       | .assign "doc" (.str v) =>
         match doc with
         | none => some (some v)
-        | some d => some (some (if d.isEmpty then d ++ v else d ++ "\n" ++ v))
+        | some d => some (some (d ++ "\n" ++ v))
       | .assign "doc" _ => none
       | _ => some doc) (some none)
 
